@@ -7,6 +7,7 @@ ATOMS = {
     "$nonascii": "héllo wörld ✓ 日本語 \U0001F600",
     "$long": "x" * 5000,
     "$escapes": "quote \" backslash \\ newline \n tab \t nul-ish \u0001 end",
+    "RED$nl": "RED\r\n",
 }
 
 
